@@ -66,6 +66,14 @@ def ofCVal : CVal → Json
   | .int n => obj [("t", Json.str "i"), ("v", ofInt n)]
   | .opaque s => obj [("t", Json.str "o"), ("v", ofStr s)]
 
+def parseHow (j : Json) : Except String How := do
+  match fldD j "how" (Json.str "call") with
+  | Json.str "call" => return .call
+  | Json.str "open" => return .open_
+  | Json.str "close" => return .close
+  | Json.str "openclose" => return .openClose
+  | _ => throw "bad how"
+
 def ofErr (e : Option PyErr) : Json :=
   match e with
   | none => Json.null
